@@ -27,6 +27,10 @@ import (
 	"golang.org/x/sync/errgroup"
 )
 
+// csvRecordType is the type of a CSV record. A collection of records is a slice of these:
+// reflect.Copy panics on slices of any other row type (e.g. [][]MyString), which are therefore not supported.
+var csvRecordType = reflect.TypeOf([]string(nil))
+
 // CSVConsumer creates a new CSV consumer.
 //
 // The consumer consumes CSV records from a provided reader into the data passed by reference.
@@ -124,7 +128,7 @@ func CSVConsumer(opts ...CSVOpt) Consumer {
 			t := v.Type()
 
 			switch {
-			case t.Kind() == reflect.Slice && t.Elem().Kind() == reflect.Slice && t.Elem().Elem().Kind() == reflect.String:
+			case t.Kind() == reflect.Slice && t.Elem() == csvRecordType:
 				csvWriter := &csvRecordsWriter{}
 				// writer options are ignored
 				if err := pipeCSV(csvWriter, csvReader, o); err != nil {
@@ -277,7 +281,7 @@ func CSVProducer(opts ...CSVOpt) Producer {
 			t := v.Type()
 
 			switch {
-			case t.Kind() == reflect.Slice && t.Elem().Kind() == reflect.Slice && t.Elem().Elem().Kind() == reflect.String:
+			case t.Kind() == reflect.Slice && t.Elem() == csvRecordType:
 				csvReader := &csvRecordsWriter{
 					records: make([][]string, v.Len()),
 				}
